@@ -47,6 +47,7 @@ FIXTURE_SEED = {
     'SIZING': 'SZ3-seg-ctor-one-list-short',
     'FRESH': 'FR1-map-insert-new-keeps-left',
     'DROP': 'DR1-key-expire-root-drops-last-node',
+    'ROOTTEST': 'RT1-set-delete-repair-root-parent-test',
 }
 # second fixture for LIVE on the seg family
 EXTRA_FIXTURES = {'C03': ['L4-seg-expiry-le'], 'C16': ['L4-seg-expiry-le']}
